@@ -172,3 +172,30 @@ CHECKS['C20'] = dict(
                  'address keys are normalised to small numbers so that a run does not depend on the heap layout',
                  'ASan/UBSan report every memory error / UB executed', 'sampling, not proof'],
 )
+
+CHECKS['C23'] = dict(
+    variants=['asan'],
+    targets=['build/bin/c23'],
+    binaries=['build/bin/c23'],
+    quick=dict(runs=400, workers=16, chunk=5, wall_cap=600),
+    thorough=dict(runs=8000, workers=16, chunk=5, wall_cap=3000),
+    run_timeout=300,
+    exec_timeout=300,
+    shrink_keys=['ops', 'seeds'],
+    expected_probes=['random_splitting_used', 'seed_list_replayed', 'characteristic_2_branch',
+                     'equal_degree_factors_present', 'seed_list_exhausted_continued'],
+    rule=('one run = a prime p in [2,199] and 1-4 polynomials of degree <= 12 over GF(p) (products of known '
+          'irreducibles with multiplicities, equal-degree blocks, or random), each factored again and again under '
+          '9-65 different rand() seed lists served by the randomness seam (lists contain 0, 1, RAND_MAX and random '
+          'values; an exhausted list continues deterministically), through gf_factor and - for monic square-free '
+          'inputs - gf_zassenhaus and gf_shoup. Oracle in independent mod-p arithmetic: factors monic, irreducible '
+          '(Rabin), distinct, multiply back; identical factor set under every seed list and entry point; each call '
+          'ends within 20000 rand() draws. Non-trivial = at least 4 judged factorisations and random splitting '
+          'actually used; distinct = distinct event-log hash.'),
+    state_measure='not tracked',
+    components=dict(real=REAL_COMMON + ['GaloisFieldDict (fields.cpp): gf_factor, gf_zassenhaus, gf_shoup, ddf/edf, gf_random', 'GMP random state (gmp_randseed_ui, mpz_urandomm)'],
+                    stub=['std::rand() (link-time --wrap=rand: values come from the plan)', 'independent GF(p)[x] arithmetic and Rabin test in the harness']),
+    assumptions=['only the factorisation clause of C23 is decided here; the arithmetic clauses (add, mul, div, gcd, ...) are pure functions of their inputs and are exercised only as far as factorisation uses them',
+                 'p <= 199, degree <= 12 (p = 2: <= 8, because gf_edf_zassenhaus loops 2^(deg-1) times there)', 'constant or otherwise degenerate rand() streams are not injected: retry loops legitimately need fresh randomness',
+                 'sampling, not proof'],
+)
